@@ -390,8 +390,10 @@ def _static_checks(out, e, c, u, f):
         related = True
         out.label("reference")
         if not _close(f, ref, REF_TOL) and not any(x["kind"].startswith("compound-factor:") for x in out.disc):
-            out.fail("reference-factor:%s:%s" % (cn, u), {"cls": cn, "unit": u, "declared": f, "definition": ref,
-                                                          "description": d})
+            # OBSERVATION ONLY: agreement of an isolated factor with its physical definition is not part of the
+            # listed property (C17 speaks of aliases, the base unit and compound units), so this never fails the
+            # check; the mismatches (parsec in 3 classes, degree Reaumur) are reported in DESIGN.md section 5.
+            out.label("observation:factor-differs-from-physical-definition:%s:%s" % (cn, u))
     return related
 
 
